@@ -6,6 +6,7 @@ import (
 	"fmt"
 	"log/slog"
 	"os"
+	"path/filepath"
 	"reservoir/utils/assertedpath"
 )
 
@@ -45,19 +46,31 @@ func NewDefault() *Config {
 	return cfg
 }
 
-// Writes the configuration to disk.
+// Writes the configuration to disk. The file is written under a temporary name and renamed into
+// place, so that a failed or partial write leaves the existing configuration file untouched.
 func (c *Config) persist() error {
-	f, err := os.Create(configPath.Path)
+	tmp, err := os.CreateTemp(filepath.Dir(configPath.Path), ".config-*.json.tmp")
 	if err != nil {
 		slog.Error("Failed to create config file", "path", configPath.Path, "error", err)
 		return fmt.Errorf("%w: failed to open config file for writing '%s'", ErrConfigFileOpen, configPath.Path)
 	}
-	defer f.Close()
+	tmpName := tmp.Name()
 
-	enc := json.NewEncoder(f)
+	enc := json.NewEncoder(tmp)
 	enc.SetIndent("", "  ") // Pretty print the JSON output
-	if err := enc.Encode(c); err != nil {
+	err = enc.Encode(c)
+	if closeErr := tmp.Close(); err == nil {
+		err = closeErr
+	}
+	if err != nil {
+		os.Remove(tmpName)
 		slog.Error("Failed to encode config to JSON", "path", configPath.Path, "error", err)
+		return fmt.Errorf("%w: failed to write config to file '%s'", ErrConfigFileWrite, configPath.Path)
+	}
+
+	if err := os.Rename(tmpName, configPath.Path); err != nil {
+		os.Remove(tmpName)
+		slog.Error("Failed to move config file into place", "path", configPath.Path, "error", err)
 		return fmt.Errorf("%w: failed to write config to file '%s'", ErrConfigFileWrite, configPath.Path)
 	}
 
